@@ -127,10 +127,12 @@ theorem heap_foldl_heappush (evs : List SEvent) (q : Array SEvent) (hw : AllP SE
 theorem StepOK.qinv {s s1 : SimS} {dt : Int} (h : QInv s) (hs : StepOK s dt s1) : QInv s1 := by
   obtain ⟨evs, hev, hq⟩ := hs.queue
   have := heap_foldl_heappush evs s.queue h.wf h.heap (fun e he => (hev e he).1)
-  refine ⟨by rw [hq]; exact this.1, by rw [hq]; exact this.2, ?_, ?_⟩
-  · rw [hs.now, hs.log, Array.toList_push, curClock_push_clock]
-  · rw [hs.log, Array.toList_push]
-    exact popsAtClock_push _ _ h.pops (fun t ty he => by cases he)
+  have hc := QInv.clock s dt h hs.nonneg
+  refine ⟨by rw [hq]; exact this.1, by rw [hq]; exact this.2, ?_, ?_, ?_, ?_⟩
+  · rw [hs.now, hs.log]; exact hc.now
+  · rw [hs.log]; exact hc.pops
+  · rw [hs.log, hs.now]; exact hc.popsLe
+  · rw [hs.log]; exact hc.popsMono
 
 /-- **An event is popped at its own time.** If the clock is advanced by the distance to
 the head of the queue (`step (head.time - now)` succeeded), the event popped next has
@@ -212,10 +214,12 @@ theorem simulate_qinv (s0 : SimS) (fuel : Nat) (h : QInv s0) : QInv (simulate s0
 
 /-- An initial state with an empty queue and an empty history at time 0. -/
 theorem qinv_initial (s0 : SimS) (hq : s0.queue = #[]) (hl : s0.log = #[]) (hn : s0.now = 0) : QInv s0 := by
-  refine ⟨?_, ?_, ?_, ?_⟩
+  refine ⟨?_, ?_, ?_, ?_, ?_, ?_⟩
   · intro i hi; simp [hq] at hi
   · intro j hj; simp [hq] at hj
   · simp [hl, hn, curClock]
   · rw [hl]; exact popsAtClock_nil
+  · simp [hl]
+  · simp [hl]
 
 end ErdosVerif.Model.Sim
